@@ -23,6 +23,9 @@ check <cls> <syn> F=<F>                 → `30` | `-` | `ERR`
 convs <reg>                             → class names in `registry.conventions` order
 match <reg> <syn> F=<F>                 → `ShocSimple:30,CFGrid2D:10` | `-` | `ERR`
 detect <reg> <syn> F=<F>                → class name | `NONE` | `ERR`
+scan eps=<cls|!load|!notconv>,…         → classes `entry_point_conventions()` yields (`-` if none)
+matchep <reg> <eps> <syn> F=<F>         → as `match`, for a registry whose entry points are <eps>
+detectep <reg> <eps> <syn> F=<F>        → as `detect`, for a registry whose entry points are <eps>
 hist <reg> <syn> D=<F>#<F>… ops=<op>,…   → one output per op: `o<k>` `d<d>` `ok` `E:noconv` `E:bound` `E:check` `E:construct` `INVALID`
 propcheck detect <reg> <syn> F=<F>      → `OK` | `FAIL:<clause>`   (conclusions of the detection theorems, evaluated)
 propcheck hist <reg> <syn> D=… ops=…    → `OK` | `FAIL:<clause>@<step>`   (conclusions of the binding theorems, evaluated)
@@ -177,6 +180,17 @@ def parseHist? (reg syn ds ops : String) : Option (Setup × List Features × Lis
   let opl ← (if ops == "-" then some [] else allSome ((ops.splitOn ",").map parseOp?))
   if opl.all (fun o => (opClasses o).all (declared su.tbl)) then some (su, dss, opl) else none
 
+def parseEntryPoint? (s : String) : Option EntryPoint :=
+  if s == "!load" then some .loadError
+  else if s == "!notconv" then some .notConvention
+  else (parseCls? s).map EntryPoint.cls
+
+def parseEps? (s : String) : Option (List EntryPoint) := do
+  let s ← stripPrefix? "eps=" s
+  if s == "-" then some [] else allSome ((s.splitOn ",").map parseEntryPoint?)
+
+def showClsList (l : List Cls) : String := if l.isEmpty then "-" else joinWith "," (l.map showCls)
+
 def showMatches (l : List (Cls × Nat)) : String :=
   if l.isEmpty then "-" else joinWith "," (l.map fun (c, s) => s!"{showCls c}:{s}")
 
@@ -290,6 +304,27 @@ def step (line : String) : String :=
       let outs := outputs (detect (envOf su.tbl)) (World.init dss su.reg) opl
       if outs.isEmpty then "-" else joinWith "," (outs.map showOut)
     | none => "BAD"
+  | ["scan", eps] =>
+    match parseEps? eps with
+    | some eps => showClsList (scanEntryPoints eps)
+    | none => "BAD"
+  | ["matchep", reg, eps, syn, f] =>
+    match parseSetup? reg syn, parseEps? eps, parseF? f with
+    | some su, some eps, some f =>
+      if !(eps.all fun e => (e.cls?.map (declared su.tbl)).getD true) then "BAD" else
+      match matchConventions (fun c => clsCheck (envOf su.tbl) c f) (conventions su.reg (scanEntryPoints eps)) with
+      | .error _ => "ERR"
+      | .ok l => showMatches l
+    | _, _, _ => "BAD"
+  | ["detectep", reg, eps, syn, f] =>
+    match parseSetup? reg syn, parseEps? eps, parseF? f with
+    | some su, some eps, some f =>
+      if !(eps.all fun e => (e.cls?.map (declared su.tbl)).getD true) then "BAD" else
+      match guess (fun c => clsCheck (envOf su.tbl) c f) (conventions su.reg (scanEntryPoints eps)) with
+      | .error _ => "ERR"
+      | .ok none => "NONE"
+      | .ok (some c) => showCls c
+    | _, _, _ => "BAD"
   | ["propcheck", "detect", reg, syn, f] =>
     match parseSetup? reg syn, parseF? f with
     | some su, some f => propDetect (envOf su.tbl) su.reg f
